@@ -149,7 +149,7 @@ class HyGen:
         """a list of statement forms; enclosing = dict(locals of enclosing functions) or None at module level"""
         r = self.rng
         forms = []
-        for _ in range(r.randint(1, 4)):
+        for _ in range(r.randint(1, 3 if depth < 2 else 2)):
             forms.append(self.stmt(vis, depth, enclosing))
         return forms
 
@@ -175,7 +175,7 @@ class HyGen:
             forms.append("(global %s)" % " ".join(gl))
         forms.append("(setv %s)" % " ".join("%s %s" % (n, self.expr(vis + params, 2)) for n in locs))
         inner = {"fn": set(locs) | set(params) | (enclosing["fn"] if enclosing else set())}
-        if depth < 3:
+        if depth < 2:
             forms += self.body(vis + params + locs, depth + 1, inner)
         forms.append(self.expr(vis + params + locs, 1))
         deco = "(%s" % kind
@@ -186,7 +186,7 @@ class HyGen:
     def stmt(self, vis, depth, enclosing):
         r = self.rng
         c = r.random()
-        if depth > 3:
+        if depth > 2:
             c = c * 0.3
         if c < 0.18:
             ns = self.names(1, 3)
@@ -236,7 +236,7 @@ class HyGen:
         self.k = 0
         forms = ["(setv %s)" % " ".join("%s %d" % (g, i) for i, g in enumerate(GLOBALS))]
         vis = list(GLOBALS)
-        for _ in range(r.randint(1, 4)):
+        for _ in range(r.randint(1, 3)):
             forms.append(self.stmt(vis, 0, None))
         return "\n".join(forms)
 
